@@ -492,6 +492,9 @@ def _run_rest(check, an: Analysis):
         c08._check_exit_pred(check, an, an.callee(cqn, '__await_children__'),
                              'Connective.__await_children__[%s]' % cqn.rsplit('.', 1)[-1],
                              'L6')
+    # `(time >= a) & ((time >= b) | (time >= c))` is built as written: a mix of dates nested
+    # in connectives of the other kind is not flattened into one (rule shared with C08)
+    c08.check_connective_operators(check, an, 'L6')
     # ---- L9 -----------------------------------------------------------------
     from . import _scope, c03
     c03._check_signal_lifecycles(
